@@ -178,7 +178,12 @@ FirstMatch(tbl, n, t) ==
   ELSE IF (IF t = << >> THEN "" ELSE t[1]) \in tbl[n].first /\ MatchDollar(tbl[n].re, t) THEN tbl[n].tag
   ELSE FirstMatch(tbl, n + 1, t)
 Resolve(tbl, t) == FirstMatch(tbl, 1, t)
-DumperTag(t) == Resolve(StockResolvers, t)       \* what yaml.SafeDumper thinks a plain `t` would be read as
+\* get_yaml_default_dumper (_loaders_dumpers.py, since the repair f3cd0b1): the stock table with its float entry
+\* replaced by the SAME pattern object the loader uses (yaml_float_pattern); `timestamp` stays, so date-like strings
+\* are still quoted.  Before the repair yaml_dump used the stock table (yaml.safe_dump): see the two families below.
+DumperResolvers == AddResolver(RemoveResolver(StockResolvers, "float"), Entry("float", CustomFloat, NumFirst \cup {"."}))
+DumperTag(t) == Resolve(DumperResolvers, t)      \* what jsonargparse's dumper thinks a plain `t` would be read as
+StockDumperTag(t) == Resolve(StockResolvers, t)  \* what yaml.SafeDumper thinks (the dumper of the trees before f3cd0b1)
 LoaderTag(t) == Resolve(LoaderResolvers, t)      \* what jsonargparse's loader reads a plain `t` as
 
 (***************************************************************************)
@@ -318,10 +323,13 @@ DevExponent(t)   == (FullMatch(CustomFloat1, t) \/ FullMatch(CustomFloat2, t)) /
 \* Family 2: alternative :72 lets the mantissa after the dot START with '_' (stock: a digit): ._1  ._  .__  ._5e+3
 DevDotUnderscore(t) == FullMatch(CustomFloat3, t) /\ ~FullMatch(StockFloat, t)
 FloatFirst(t) == t # << >> /\ t[1] \in NumFirst \cup {"."}            \* every float alternative starts with a sign, a digit or a dot
-FloatDeviation(t) == IF ~FloatFirst(t) THEN "none"
-                     ELSE IF DevExponent(t) THEN "loader-float-without-dot-or-signed-exponent"
-                     ELSE IF DevDotUnderscore(t) THEN "loader-float-dot-underscore"
-                     ELSE "none"
+\* Both families were genuine defects of the pinned tree (the stock dumper wrote these texts plain); they were repaired
+\* by f3cd0b1 (the dumper resolves floats with the loader's pattern), so they are NO LONGER named deviations: a text
+\* of either family that does not survive the round trip is a violation again.  The family predicates stay, as the
+\* vocabulary of the invariant RepairedFamiliesQuoted below.
+FloatDeviation(t) == "none"
+RepairedFamiliesQuoted(t) == (FloatFirst(t) /\ (DevExponent(t) \/ DevDotUnderscore(t)))
+                               => (StockDumperTag(t) = "str" /\ DumperTag(t) = "float" /\ YamlStyleFrom(DumperTag(t), PlainAllowed(t), t) # "plain")
 \* Family 4: a NEL (x85) inside a str that is written single-quoted is folded away (see ReadSingle)
 DevNelFrom(style, t) == style = "single" /\ Has(t, "NEL")
 \* Families 5, 6 (JSON text read by the YAML loader): raw line breaks are folded; unprintable characters are rejected
@@ -339,7 +347,8 @@ StrRoundTripModuloKnown(t) == StrRoundTrip(t) \/ Deviation(t) # "none"
 DeviationsAreReal(t)       == Deviation(t) # "none" => ~StrRoundTrip(t)
 \* design facts that make the law hold everywhere else (checked by TLC on every text of the instance):
 \* the loader never reads a non-string where the dumper sees a string, except through the replaced float pattern
-OnlyFloatDiffers(t) == (DumperTag(t) = "str" /\ LoaderTag(t) # "str") => LoaderTag(t) = "float"
+\* (before f3cd0b1: "... except through the replaced float pattern"; now without exception)
+OnlyFloatDiffers(t) == DumperTag(t) = "str" => LoaderTag(t) = "str"
 \* removing `timestamp` from the loader is the safe direction: the dumper quotes, the loader would not have needed it
 TimestampSafe(t)    == DumperTag(t) = "timestamp" => (LoaderTag(t) = "str" /\ YamlWriteStr(t) # "plain")
 
